@@ -671,7 +671,7 @@ func (e Element) indentAttrs() bool {
 		case ConditionalAttribute:
 			return true
 		case ExpressionAttribute:
-			if lines := a.formatExpression(); len(lines) > 1 || strings.Contains(lines[0], "\n") {
+			if lines := a.formatExpression(); len(lines) > 1 || strings.Contains(lines[0], "\n") || endsWithLineComment(lines[0]) {
 				return true
 			}
 		}
@@ -946,6 +946,13 @@ func (ea ExpressionAttribute) formatExpression() (exp []string) {
 func (ea ExpressionAttribute) Write(w io.Writer, indent int) (err error) {
 	lines := ea.formatExpression()
 	if len(lines) == 1 {
+		if endsWithLineComment(lines[0]) {
+			// A closing brace on the same line would become part of the comment.
+			if err = writeIndent(w, indent, ea.Name, `={ `, lines[0], "\n"); err != nil {
+				return err
+			}
+			return writeIndent(w, indent, `}`)
+		}
 		return writeIndent(w, indent, ea.Name, `={ `, lines[0], ` }`)
 	}
 
